@@ -248,6 +248,23 @@ func explore(r *ev.Report, t tuple) {
 		r.Violation(key, session{t, []int{total + 2, 1}})
 	}
 	r.Transitions += 2
+	// every request sequence of length <= 3 without merging states: a request that delivers
+	// nothing new (size 0, or an exhausted feed) leaves the reference state unchanged but
+	// may still change the real object
+	for _, a := range sizes {
+		for _, b := range sizes {
+			for _, c := range []int{-1, 0} {
+				p := []int{a, b, c, 5}
+				if c < 0 {
+					p = []int{a, b, 5}
+				}
+				if key, _, _, _ := runSession(t, p); key != "" {
+					r.Violation(key, session{t, p})
+				}
+				r.Transitions += int64(len(p))
+			}
+		}
+	}
 	// start offsets (the Container protocol's second argument) on the initial feed
 	for start := 1; start <= 3; start++ {
 		for _, n := range sizes {
@@ -305,7 +322,7 @@ func main() {
 	r := ev.New("C11", "model_checking",
 		"source tuples: k in 0..3 sources, each a list of 0..3 items with timestamps from {missing, t1<t2<t3} in every order (ties, unsorted); quick: all tuples of <=2 sources with <=3 items and 3 sources with <=2 items, "+
 			"thorough: all tuples of <=3 sources with <=3 items; per tuple an explicit-state search over request sequences (sizes {0,1,2,3,5}, state = items delivered), every transition replayed on a fresh real Splicer "+
-			"over synthetic Container sources, every continuation asked twice; distinct_nontrivial = tuples with >=2 non-empty sources")
+			"over synthetic Container sources, every continuation asked twice, plus every unmerged request pair (optionally followed by an empty request) and then a large request; distinct_nontrivial = tuples with >=2 non-empty sources")
 	if *ev.FlagReplay != "" {
 		var s session
 		ev.LoadReplay(*ev.FlagReplay, &s)
